@@ -144,9 +144,9 @@ def big_values(ctx, fa):
             var.append((z & 0x7F) | 0x80)
             z >>= 7
         var.append(z)
-        enc = bytes(var) + payload + b"\x02"          # {"b": <bytes>, "k": 1}
-        schema = {"type": "record", "name": "Big", "fields": [{"name": "b", "type": "bytes"}, {"name": "k", "type": "int"}]}
-        offs = sorted(set([1, len(var), len(var) + 1, 65535, 65536, 65537, 65536 + len(var), n // 2, n, len(enc) - 1] +
+        enc = b"\x02" + bytes(var) + payload          # {"k": 1, "b": <bytes>}: the big value comes last, nothing after it is missed
+        schema = {"type": "record", "name": "Big", "fields": [{"name": "k", "type": "int"}, {"name": "b", "type": "bytes"}]}
+        offs = sorted(set([1, len(var), len(var) + 1, len(var) + 2, 65535, 65536, 65537, 65536 + len(var), 65537 + len(var), n // 2, n, len(enc) - 1] +
                           [rnd.randrange(1, len(enc)) for _ in range(12)]))
         offs = [o for o in offs if 0 < o < len(enc)]
         bad = None
@@ -159,7 +159,7 @@ def big_values(ctx, fa):
                 pass
         try:
             whole = fa.schemaless_reader(io.BytesIO(enc), schema)
-            if whole != {"b": payload, "k": 1}:
+            if whole != {"k": 1, "b": payload}:
                 bad = bad or (len(enc), "whole input read wrongly")
         except Exception as e:  # noqa: BLE001
             bad = bad or (len(enc), "whole input raised %s" % type(e).__name__)
